@@ -5,7 +5,9 @@
    schedules -- the mechanism never performs an undefined step, a normal return satisfies Q and an
    exceptional exit satisfies E.  `unchanged h h'` = every cell of every block, the set of live blocks, their
    sizes and all data-member registers are exactly as before (strong guarantee incl. "nothing leaked"). *)
-From Coq Require Import List Arith Lia Bool.
+From Coq Require Import List Arith Lia Bool ZArith.
+From MomoCommon Require Import GenPrelude.
+From C04 Require Gen_OpenN1_exn Gen_Open2N2_exn OpenExn.
 From C04 Require Import Effects ObjMgr ArrayData Ctor KeyValue Tree Relocator Replace PlanWf MultiMap SetCount HashGrow Shifter.
 Import ListNotations.
 
@@ -531,3 +533,57 @@ Theorem open_bucket_add_premature_refuted :
              regs (hp s') rCount = 2 /\ mem (hp s') (1, 1) = Raw.
 Proof. exact bucket_add_inplace_premature_leaves_slot_marked. Qed.
 Print Assumptions open_bucket_add_premature_refuted.
+
+(* ---- theorems about cxx2coq-GENERATED code (regenerated from /repo's headers on every run) ---------------------------------------
+   BucketOpenN1<maxCount, reverse>::AddCrt (details/HashBucketOpenN1.h:122-135; BucketOpen8 is BucketOpenN1<7, true>): whenever the
+   item creator throws -- the generated function then returns (false, bytes) -- every byte of the bucket is as before.  For every
+   maxCount, both orientations, every byte state, every hash code.  (Seeded change C01/b moves the short-hash store before the
+   creator: then the generated definition returns the UPDATED bytes and this theorem no longer holds.) *)
+Theorem gen_openn1_addcrt_exn_unchanged :
+  forall reverse maxCount mData fails hashCode newItem m',
+    Gen_OpenN1_exn.AddCrt reverse maxCount mData fails hashCode newItem = GenPrelude.Ok (false, m') -> fails = true /\ m' = mData.
+Proof. exact OpenExn.n1_addcrt_incomplete. Qed.
+Print Assumptions gen_openn1_addcrt_exn_unchanged.
+
+(* non-vacuity: with room in the bucket a throwing creator really yields (false, same bytes), a non-throwing one completes *)
+Theorem gen_openn1_addcrt_throwing :
+  forall reverse maxCount mData hashCode newItem,
+    (Gen_OpenN1_exn.pvGetCount reverse maxCount mData < maxCount)%Z ->
+    Gen_OpenN1_exn.AddCrt reverse maxCount mData true hashCode newItem = GenPrelude.Ok (false, mData).
+Proof. exact OpenExn.n1_addcrt_throwing. Qed.
+Print Assumptions gen_openn1_addcrt_throwing.
+
+Theorem gen_openn1_addcrt_completes :
+  forall reverse maxCount mData hashCode newItem,
+    (Gen_OpenN1_exn.pvGetCount reverse maxCount mData < maxCount)%Z ->
+    exists m', Gen_OpenN1_exn.AddCrt reverse maxCount mData false hashCode newItem = GenPrelude.Ok (true, m').
+Proof. exact OpenExn.n1_addcrt_completes. Qed.
+Print Assumptions gen_openn1_addcrt_completes.
+
+(* BucketOpenN1::Remove (HashBucketOpenN1.h:136-151): the item replacer runs before any byte is written *)
+Theorem gen_openn1_remove_exn_unchanged :
+  forall reverse maxCount mData fails index m',
+    Gen_OpenN1_exn.Remove reverse maxCount mData fails index = GenPrelude.Ok (false, m') -> fails = true /\ m' = mData.
+Proof. exact OpenExn.n1_remove_incomplete. Qed.
+Print Assumptions gen_openn1_remove_exn_unchanged.
+
+(* BucketOpen2N2<3, true>::AddCrt / ::Remove (HashBucketOpen2N2.h:144-180): state bytes, short hashes and hash probes *)
+Theorem gen_open2n2_addcrt_exn_unchanged :
+  forall st sh hp fails hashCode logBucketCount probe newItem st' sh' hp',
+    Gen_Open2N2_exn.AddCrt st sh hp fails hashCode logBucketCount probe newItem = GenPrelude.Ok (false, st', sh', hp') ->
+    fails = true /\ st' = st /\ sh' = sh /\ hp' = hp.
+Proof. exact OpenExn.o2_addcrt_incomplete. Qed.
+Print Assumptions gen_open2n2_addcrt_exn_unchanged.
+
+Theorem gen_open2n2_remove_exn_unchanged :
+  forall st sh hp fails index st' sh' hp',
+    Gen_Open2N2_exn.Remove st sh hp fails index = GenPrelude.Ok (false, st', sh', hp') -> fails = true /\ st' = st /\ sh' = sh /\ hp' = hp.
+Proof. exact OpenExn.o2_remove_incomplete. Qed.
+Print Assumptions gen_open2n2_remove_exn_unchanged.
+
+Theorem gen_open2n2_addcrt_throwing :
+  forall st sh hp hashCode logBucketCount probe newItem,
+    (Gen_Open2N2_exn.pvGetCount st sh hp < Gen_Open2N2_exn.maxCount)%Z ->
+    Gen_Open2N2_exn.AddCrt st sh hp true hashCode logBucketCount probe newItem = GenPrelude.Ok (false, st, sh, hp).
+Proof. exact OpenExn.o2_addcrt_throwing. Qed.
+Print Assumptions gen_open2n2_addcrt_throwing.
